@@ -2,6 +2,7 @@ package main
 
 import (
 	"fmt"
+	"reflect"
 	"sort"
 	"strings"
 
@@ -78,6 +79,23 @@ func init() {
 	// EVAL src dbseed : compile; the driver evaluates SQL and pipeline on small databases
 	moreOps["EVAL"] = func(c Case) string {
 		return fmtCompile(compileWith(unhex(c.Fields[0]), nil, false))
+	}
+	// COMPILESEQ srcA srcB params : both programs compiled one after the other with the SAME
+	// CompileOptions value (and the same map); result A ;; result B ;; PARAMS-OK|PARAMS-CHANGED
+	moreOps["COMPILESEQ"] = func(c Case) string {
+		params, has := parseParams(c.Fields[2])
+		before := cloneMap(params)
+		var opts *pql.CompileOptions
+		if has {
+			opts = &pql.CompileOptions{Parameters: params}
+		}
+		a := fmtCompile(opts.Compile(unhex(c.Fields[0])))
+		b := fmtCompile(opts.Compile(unhex(c.Fields[1])))
+		st := "PARAMS-OK"
+		if !reflect.DeepEqual(before, params) {
+			st = "PARAMS-CHANGED"
+		}
+		return a + " ;; " + b + " ;; " + st
 	}
 	// QUOTE s|i bytes
 	moreOps["QUOTE"] = func(c Case) string {
